@@ -823,6 +823,9 @@ func (t *Tr) loopBack(li *loopInfo, from *ssa.BasicBlock) {
 		t.cur, t.curReach, t.curBlock = saveCur, saveReach, saveBlock
 		return
 	}
+	for _, gs := range li.lc.GhostSets {
+		t.applyGhostSet(env, gs)
+	}
 	for k, inv := range li.lc.Invariants {
 		s, err := env.evalClause(inv.E)
 		if err != nil {
@@ -876,6 +879,13 @@ func (t *Tr) rangeIdxInv(phi *ssa.Phi, v string) string {
 // loopMods computes the heaps a loop body may write.
 func (t *Tr) loopMods(li *loopInfo) (names []string, all bool, allGhost bool) {
 	set := map[string]bool{}
+	if li.lc != nil {
+		for _, gs := range li.lc.GhostSets {
+			if id, ok := gs.Target.Fun.(*SIdent); ok {
+				set["G_"+id.Name] = true
+			}
+		}
+	}
 	var blocks []*ssa.BasicBlock
 	for b := range li.blocks {
 		blocks = append(blocks, b)
